@@ -123,6 +123,13 @@ type c03Cfg struct {
 
 func c03Machine(c *Ctx, cfg c03Cfg) *Machine[*listInst] {
 	ops := c03Ops(cfg.MaxL)
+	depth := 0
+	if cfg.Prefill > 0 {
+		ops, depth = c03Ops(3), 2 // the long regime: see c01Configs
+		if !c.Quick() {
+			depth = 3
+		}
+	}
 	name := "C03 " + cfg.String() + " ctor=" + cfg.Ctor
 	if cfg.Policy {
 		name += " push-policy"
@@ -131,7 +138,8 @@ func c03Machine(c *Ctx, cfg c03Cfg) *Machine[*listInst] {
 		name += " no-nesting"
 	}
 	return &Machine[*listInst]{
-		Name: name,
+		Name:     name,
+		MaxDepth: depth,
 		New: func() *listInst {
 			if cfg.Ctor == "" {
 				in := cfg.build()
@@ -218,15 +226,24 @@ func c03Configs(c *Ctx) []c03Cfg {
 	for _, k := range kinds {
 		for _, fifo := range []bool{false, true} {
 			for _, cp := range caps {
-				out = append(out, c03Cfg{listCfg{k, fifo, cp, false, false, cp, false, false, false}, "", false, false})
+				out = append(out, c03Cfg{listCfg{k, fifo, cp, false, false, cp, false, false, false, 0}, "", false, false})
 				if k == "LIST" || k == "AND" || !c.Quick() {
-					out = append(out, c03Cfg{listCfg{k, fifo, cp, false, false, cp, false, false, false}, "", true, false})
-					out = append(out, c03Cfg{listCfg{k, fifo, cp, false, false, cp, true, false, true}, "", false, false})
-					out = append(out, c03Cfg{listCfg{k, fifo, cp, false, false, cp, false, false, false}, "", false, true})
+					out = append(out, c03Cfg{listCfg{k, fifo, cp, false, false, cp, false, false, false, 0}, "", true, false})
+					out = append(out, c03Cfg{listCfg{k, fifo, cp, false, false, cp, true, false, true, 0}, "", false, false})
+					out = append(out, c03Cfg{listCfg{k, fifo, cp, false, false, cp, false, false, false, 0}, "", false, true})
+				}
+			}
+			if k == "LIST" {
+				// capacities around and beyond any preallocation constant, almost full at the start
+				for _, lc := range [][2]int{{9, 7}, {33, 31}, {1023, 1021}, {1024, 1022}, {1025, 1022}, {2000, 1998}} {
+					if c.Quick() && (lc[0] == 2000 || lc[0] == 1023 || lc[0] == 1025) {
+						continue
+					}
+					out = append(out, c03Cfg{listCfg{Kind: k, FIFO: fifo, Cap: lc[0], MaxL: lc[0], Prefill: lc[1], Mtx: fifo}, "", false, false})
 				}
 			}
 			for _, ctor := range []string{"", "0", "-1", "marshal", "marshal-nested"} {
-				out = append(out, c03Cfg{listCfg{k, fifo, 0, false, false, 3, false, false, false}, ctor, false, false})
+				out = append(out, c03Cfg{listCfg{k, fifo, 0, false, false, 3, false, false, false, 0}, ctor, false, false})
 			}
 		}
 	}
